@@ -273,6 +273,7 @@ def caseLine (t : Tables) (st : CaseState) (ws : List String) : CaseState :=
       match attr, unhexArg v with
       | "ns", some b => upd fun g => { g with ns := b }
       | "envns", some b => upd fun g => { g with envNs := b }
+      | "shortdesc", some b => upd fun g => { g with shortDesc := b }
       | "hidden", _ => upd fun g => { g with hidden := v == "1" }
       | _, _ => fail "bad setgrp"
     | _, _ => fail "bad setgrp"
@@ -322,8 +323,9 @@ def caseLine (t : Tables) (st : CaseState) (ws : List String) : CaseState :=
   | none, "complete" :: args =>
     match hexListArgs args with
     | some argv =>
-      -- completion mode runs the preamble of ParseArgs (help groups) and nothing else
-      let P := prepare E st.P
+      -- completion mode runs the preamble of ParseArgs (help groups) and nothing else: the active chain
+      -- of an earlier call stays as it is
+      let P := preamble E st.P
       let items := complete P argv
       { st with P := P }.emit ("COMP " ++ hexList (items.flatMap fun (it : Bytes × Bytes) => [it.1, it.2]))
     | none => fail "bad complete"
